@@ -229,7 +229,11 @@ func runCheck(o checkOpts) checkResult {
 				groupAll[q.Obl] = append(groupAll[q.Obl], q)
 				continue
 			}
-			if q.Status == "unsat" {
+			if q.PreOnly {
+				continue
+			}
+			if q.Status == "unsat" && !(q.Pre != nil && q.Pre.Status == "unsat") {
+				// (a lock whose surrounding path is already unreachable under the contract is dead code, not a vacuous contract)
 				vacuous = append(vacuous, q)
 			}
 			continue
